@@ -152,3 +152,49 @@ func Verif_C16_socket_filter() {
 	verifapi.Assert("names-released", len(s.listenerRegistry) == 0)
 	verifapi.Assert("no-lock-left-held", verifapi.HeldLocks() == 0)
 }
+
+// Verif_C16_two_notices: two datagrams were sent to the same dead service - from two different sockets
+// of this node, or twice from the same socket - and both 'service unknown' notices come back, at
+// arbitrary instants (the clock is arbitrary: microseconds or minutes apart). Every datagram's sender
+// socket receives its own notice: two notices about one destination are two notices.
+func Verif_C16_two_notices() {
+	n := verifNetceptor("A")
+	s := n.s
+	names := []string{"s1", "s2"}
+	var subs []chan UnreachableNotification
+	var pcs []PacketConner
+	for _, nm := range names {
+		pc, err := s.ListenPacket(nm)
+		verifapi.Assert("listen-ok", err == nil)
+		pcs = append(pcs, pc)
+		subs = append(subs, pc.SubscribeUnreachable(make(chan struct{})))
+	}
+	verifapi.Quiesce()
+	second := names[verifapi.Choose(2)] // the socket behind the second datagram: the other one, or the same again
+	counts := map[string]int{}
+	for _, from := range []string{"s1", second} {
+		um := &UnreachableMessage{FromNode: "A", FromService: from, ToNode: "R", ToService: "dead", Problem: ProblemServiceUnknown}
+		md := &MessageData{FromNode: "R", ToNode: "A", FromService: "unreach", ToService: "unreach", HopsToLive: 5, Data: verifapi.JSON(um)}
+		_ = s.handleMessageData(md)
+		verifapi.Quiesce()
+		for i, nm := range names {
+			select {
+			case m := <-subs[i]:
+				counts[nm]++
+				verifapi.Assert("notice-names-the-original-packet", verifapi.All(m.FromService == nm, m.ToNode == "R", m.ToService == "dead", m.Problem == ProblemServiceUnknown))
+			default:
+			}
+		}
+	}
+	verifapi.Cover("two-notices-handled")
+	want1, want2 := 1, 1
+	if second == "s1" {
+		want1, want2 = 2, 0
+	}
+	verifapi.Assert("every-datagram-s-sender-socket-gets-its-notice", verifapi.All(counts["s1"] == want1, counts["s2"] == want2))
+	for _, pc := range pcs {
+		_ = pc.Close()
+	}
+	verifapi.Quiesce()
+	verifapi.Assert("no-lock-left-held", verifapi.HeldLocks() == 0)
+}
